@@ -14,6 +14,7 @@ import (
 	"encoding/binary"
 	"fmt"
 	"io"
+	"strings"
 	"sync"
 	"sync/atomic"
 	"testing"
@@ -59,15 +60,76 @@ type c15env struct {
 	raPos     int64 // logical position of the read-ahead wrapper, if known
 	raKnown   bool
 	nwrites   int
+
+	// read-fault oracle: armed only for the duration of one faulted read
+	repl   int
+	fmu    sync.Mutex
+	faults map[int]int // tract index -> kind (1 all replicas fail, 2 all but replica 0 fail, 3 all fail during the first attempt)
+	calls  map[int]int // read RPCs seen per tract since arming
+}
+
+type c15fault struct{ tract, kind int }
+
+// tsTrace is the in-memory tractserver talker's trace hook: it can fail a read RPC.
+func (e *c15env) tsTrace(t tsTraceEntry) core.Error {
+	if t.write {
+		return core.NoError
+	}
+	e.fmu.Lock()
+	defer e.fmu.Unlock()
+	idx := int(t.id.Index)
+	kind, ok := e.faults[idx]
+	if !ok {
+		return core.NoError
+	}
+	switch kind {
+	case 1:
+		return core.ErrRPC
+	case 2:
+		if !strings.HasSuffix(t.addr, "-0") {
+			return core.ErrRPC
+		}
+	case 3:
+		c := e.calls[idx]
+		e.calls[idx] = c + 1
+		if c < e.repl {
+			return core.ErrRPC
+		}
+	}
+	return core.NoError
+}
+
+func (e *c15env) arm(fs []c15fault) {
+	e.fmu.Lock()
+	e.faults = map[int]int{}
+	e.calls = map[int]int{}
+	for _, f := range fs {
+		e.faults[f.tract] = f.kind
+	}
+	e.fmu.Unlock()
+}
+
+func (e *c15env) disarm() {
+	e.fmu.Lock()
+	e.faults = nil
+	e.fmu.Unlock()
+}
+
+func c15faultsWire(fs []c15fault) []int64 {
+	out := []int64{int64(len(fs))}
+	for _, f := range fs {
+		out = append(out, int64(f.tract), int64(f.kind))
+	}
+	return out
 }
 
 func c15newEnv(id string, cacheOn bool, repl int) *c15env {
-	e := &c15env{id: id, oposKnown: true, raKnown: true}
+	e := &c15env{id: id, oposKnown: true, raKnown: true, repl: repl}
 	options := Options{DisableRetry: true, DisableCache: !cacheOn}
 	cli := newBaseClient(&options)
 	cli.master = newMemMasterConnection([]string{"1", "2", "3"})
 	cli.curators = &c15curators{CuratorTalker: newMemCuratorTalker(), n: &e.rpcs}
-	cli.tractservers = newMemTractserverTalker(nil)
+	cli.tractservers = newMemTractserverTalker(e.tsTrace)
 	e.cli = cli
 	b, err := cli.Create(ReplFactor(repl))
 	if err != nil {
@@ -90,6 +152,8 @@ func c15errClass(err error) int64 {
 		return 1
 	case core.ErrInvalidArgument.Is(err):
 		return 2
+	case core.ErrRPC.Is(err):
+		return 4
 	}
 	return 3
 }
@@ -194,6 +258,14 @@ func (e *c15env) oracleWrite(off int64, data []byte) {
 
 // checkRead judges (n, err, p[:n]) of a positional read of len(p) bytes at off. kind = "readat" or "read".
 func (e *c15env) checkRead(kind string, off int64, p []byte, n int, err error) {
+	e.checkReadF(kind, off, p, n, err, nil)
+}
+
+// checkReadF: the same judgement when tractserver read faults were armed during the call. A read may then fail,
+// but: end-of-file only at the true end of the blob; no success (nil or EOF) for a range containing a tract that
+// could not be read; an error makes no claim about bytes beyond n, the n bytes it does claim must be right and must
+// not reach past the first unreadable tract; no error when every needed tract had a healthy replica.
+func (e *c15env) checkReadF(kind string, off int64, p []byte, n int, err error, fs []c15fault) {
 	L := int64(len(e.oracle))
 	k := int64(len(p))
 	want := int64(0)
@@ -204,8 +276,43 @@ func (e *c15env) checkRead(kind string, off int64, p []byte, n int, err error) {
 		}
 	}
 	det := map[string]interface{}{"off": off, "len": k, "n": n, "err": fmt.Sprint(err), "blob_len": L, "tract": c15TL}
+	// which needed tracts were unreadable (persistently / during the first attempt)
+	// persistent: a tract holding wanted bytes was unreadable on every replica for the whole call;
+	// consulted: some tract the client has to ask (even only to find the end) was unreadable at least once
+	persistent, consulted := false, false
+	firstBad := int64(-1)
+	if len(fs) > 0 && k > 0 {
+		det["faults"] = fmt.Sprint(fs)
+		ntracts := (L + c15TL - 1) / c15TL
+		lo, hi := off/c15TL, (off+k-1)/c15TL
+		if hi > ntracts-1 {
+			hi = ntracts - 1
+		}
+		for _, f := range fs {
+			t := int64(f.tract)
+			if t < lo || t > hi || f.kind == 2 {
+				continue
+			}
+			consulted = true
+			if f.kind == 1 && want > 0 && t <= (off+want-1)/c15TL {
+				persistent = true
+			}
+			if firstBad < 0 || t < firstBad {
+				firstBad = t
+			}
+		}
+	}
+	isFault := err != nil && core.ErrRPC.Is(err)
 	if int64(n) > want || n < 0 {
 		e.report(kind+"-count-too-large", "a read returned more bytes than the blob holds in the range", det)
+		return
+	}
+	if persistent && !isFault {
+		e.report(kind+"-no-error-despite-unreadable-tract", "a read whose range contains a tract that no replica could deliver did not fail", det)
+		return
+	}
+	if err == io.EOF && int64(n) < want {
+		e.report(kind+"-eof-before-end", "a read reported end-of-file before the end of the blob", det)
 		return
 	}
 	if n > 0 && !bytes.Equal(p[:n], e.oracle[off:off+int64(n)]) {
@@ -223,9 +330,19 @@ func (e *c15env) checkRead(kind string, off int64, p []byte, n int, err error) {
 		e.report(kind+"-data/"+cls, "a read returned bytes different from the most recently written ones (zeros in holes)", det)
 		return
 	}
+	if isFault {
+		if !consulted {
+			e.report(kind+"-spurious-read-error", "a read failed although every needed tract had a healthy replica", det)
+		} else if limit := firstBad*c15TL - off; int64(n) > limit && int64(n) > 0 {
+			e.report(kind+"-count-past-unreadable-tract", "a failed read claims bytes at or beyond the first tract it could not read", det)
+		}
+		return // an error makes no claim about bytes beyond n
+	}
 	if int64(n) < want {
 		if err == nil {
 			e.report(kind+"-short-nil-error/within-blob", "a read returned fewer bytes than available and requested, without an error", det)
+		} else if err == io.EOF {
+			e.report(kind+"-eof-before-end", "a read reported end-of-file before the end of the blob", det)
 		} else {
 			e.report(kind+"-short-with-error/within-blob", "a read returned fewer bytes than available and requested", det)
 		}
@@ -306,6 +423,114 @@ func (e *c15env) readAt(off, k int64) {
 		return
 	}
 	e.checkRead("readat", off, p, n, err)
+}
+
+func (e *c15env) readAtF(off, k int64, fs []c15fault) {
+	p := make([]byte, k)
+	c15fill(p, c15Dirty)
+	e.arm(fs)
+	n, err := e.blob.ReadAt(p, off)
+	e.disarm()
+	if n < 0 || int64(n) > k {
+		n = 0
+	}
+	op := append([]int64{13, off, k}, c15faultsWire(fs)...)
+	e.emit(op, append(e.hdr(int64(n), err), c15rle(p[:n])...))
+	vw.Stat(fmt.Sprintf("faulted.read.err=%d", c15errClass(err)), 1)
+	e.checkReadF("readat", off, p, n, err, fs)
+}
+
+func (e *c15env) readF(k int64, fs []c15fault) {
+	p := make([]byte, k)
+	c15fill(p, c15Dirty)
+	before := e.blob.offset
+	e.arm(fs)
+	n, err := e.blob.Read(p)
+	e.disarm()
+	if n < 0 || int64(n) > k {
+		n = 0
+	}
+	op := append([]int64{14, k}, c15faultsWire(fs)...)
+	e.emit(op, append(e.hdr(int64(n), err), c15rle(p[:n])...))
+	vw.Stat(fmt.Sprintf("faulted.read.err=%d", c15errClass(err)), 1)
+	if e.oposKnown && before != e.opos {
+		e.report("read-start-position", "Blob cursor is not where the previous operations left it", map[string]interface{}{"have": before, "want": e.opos})
+	}
+	e.checkReadF("read", before, p, n, err, fs)
+	wantPos := before
+	if err == nil || err == io.EOF {
+		wantPos = before + int64(n)
+	}
+	if e.blob.offset != wantPos {
+		e.report("read-position", "Read moved the cursor although it failed, or did not advance it by the count read", map[string]interface{}{"before": before, "n": n, "after": e.blob.offset, "err": fmt.Sprint(err)})
+	}
+	e.opos = e.blob.offset
+	e.raKnown = false
+}
+
+// genFaults picks 1-2 faulted tracts in or next to the tract range of a read
+func (e *c15env) genFaults(r *vw.Rng, off, k int64) []c15fault {
+	lo, hi := off/c15TL, (off+k)/c15TL
+	nf := r.PickInt(1, 1, 1, 2)
+	var fs []c15fault
+	for i := 0; i < nf; i++ {
+		t := lo + int64(r.Intn(int(hi-lo+1)))
+		if r.Chance(1, 8) {
+			t = hi + 1
+		}
+		if r.Chance(1, 10) && lo > 0 {
+			t = lo - 1
+		}
+		dup := false
+		for _, f := range fs {
+			if int64(f.tract) == t {
+				dup = true
+			}
+		}
+		if !dup {
+			fs = append(fs, c15fault{int(t), r.PickInt(1, 1, 1, 3, 3, 2)})
+		}
+	}
+	return fs
+}
+
+// a multi-tract range: starts in some tract, covers two to four tracts
+func (e *c15env) genSpan(r *vw.Rng) (int64, int64) {
+	L := int64(len(e.oracle))
+	nt := L/c15TL + 1
+	start := int64(r.Intn(int(nt)))
+	off := start*c15TL + r.PickI64(0, 0, 1, 100, c15TL-10, c15TL-1, c15TL/2)
+	k := r.PickI64(c15TL, c15TL+1, 2*c15TL, 2*c15TL+5, 3*c15TL, c15TL+20, 20, 3*c15TL+1)
+	if r.Chance(1, 4) {
+		k = L - off + r.PickI64(-1, 0, 1, c15TL)
+	}
+	if k < 1 {
+		k = 1
+	}
+	if k > 4*c15TL {
+		k = 4 * c15TL
+	}
+	return off, k
+}
+
+func (e *c15env) stepFaulted(r *vw.Rng) {
+	off, k := e.genSpan(r)
+	switch x := r.Intn(100); {
+	case x < 55:
+		if r.Chance(1, 2) {
+			e.readAt(off, k) // fills the tract cache for this range when caching is on
+		}
+		e.readAtF(off, k, e.genFaults(r, off, k))
+	case x < 70:
+		e.seek(off, 0)
+		e.readF(k, e.genFaults(r, off, k))
+	case x < 80:
+		e.setCache(r.Bool())
+	case x < 88:
+		e.readAt(off, k)
+	default:
+		e.stepDirect(r)
+	}
 }
 
 func (e *c15env) read(k int64) {
@@ -773,8 +998,11 @@ func (e *c15env) stepDirect(r *vw.Rng) {
 		e.seek(off, w)
 	case k < 93:
 		e.byteLength(false)
-	case k < 97:
+	case k < 96:
 		e.setCache(r.Bool())
+	case k < 98:
+		off, ln := e.genSpan(r)
+		e.readAtF(off, ln, e.genFaults(r, off, ln))
 	default:
 		e.reopen()
 	}
@@ -851,6 +1079,15 @@ func c15runCase(id string, r *vw.Rng, fix16, fix17, fix17b bool, nops int) *c15e
 	e.emit([]int64{0, b2i(fix16), b2i(fix17), b2i(cacheOn), b2i(fix17b)}, []int64{0})
 	kind := r.Intn(100)
 	switch {
+	case kind < 14: // multi-tract blob, reads with tractserver read faults armed
+		vw.Stat("case.kind=layout+faulted-reads", 1)
+		e.writeAt(0, []c15run{{c15TL - 3, 21}, {c15TL + 3, 22}, {r.PickI64(c15TL, c15TL-5, 100, 2*c15TL), 23}})
+		if r.Chance(1, 2) {
+			e.buildLayout(r)
+		}
+		for i := 0; i < nops; i++ {
+			e.stepFaulted(r)
+		}
 	case kind < 35: // direct operations only
 		vw.Stat("case.kind=direct", 1)
 		for i := 0; i < nops; i++ {
